@@ -46,7 +46,7 @@ ASSUMPTIONS = [
     "frame classes (round 4): only the tilt factor changes between frames (boxlength is asserted constant); each frame is analysed with its own cell, its own neighbour / weight table "
     "width and its own weights; whether a frame contains negative weights is a property of that frame; a single exact zero weight is inside the domain (the bond drops out of numerator "
     "and denominator), a row of zeros is outside; weights may be written as signed integer tokens ('-1 2 1')",
-    "storage forms (round 4): as in C09 (ppp list / tuple / bool / int32, float32 positions at 2e-6 for psi_l only, Fortran / strided positions, l as np.int64, Nmax as np.int32, "
+    "storage forms (round 4): as in C09 (ppp list / tuple / bool / int32, float32 positions at 1e-4 for psi_l only, Fortran / strided positions, l as np.int64, Nmax as np.int32, "
     "unwrapped coordinates, dilation by 2^-33 / 2^27 with spatial_corr left to C13, time_corr(dt = 0.0 / 0) as a value)",
     "output files (round 4): output_phi and time_average(outputfile) write <name>.npy (np.save appends '.npy' unless present) holding the returned complex array bit for bit, and "
     "<outputfile>.snapshot_id.dat = header 'middle_snapshot_id' + the returned ids as integers; the returned values do not depend on whether a file is requested",
@@ -1048,7 +1048,8 @@ def run_types(case):
     b, snaps, nls, wts, steps = frames_build(case, "c10_ty", Hs, frames, nls_file, wts_file, ppp=pa, l=np.int64(l) if form == "l_npint" else l,
                                              steps=[2_000_000_700 + 100 * f for f in range(F)] if form == "step_2e9" else None,  # L9: timesteps beyond int32
                                              nmax=np.int32(nm) if form == "nmax_npint" else nm, positions_raw=arrays, hform="fortran" if form == "h_fortran" else "c")
-    rt, at = (2e-6, 2e-6) if form == "pos_f32" else (1e-9, 1e-11)
+    # float32 positions of magnitude ~10 carry ~1e-6 absolute error; a bond angle error of ~2e-6 is multiplied by l (<= 12) in exp(i l theta) / Y_lm
+    rt, at = (1e-4, 1e-4) if form == "pos_f32" else (1e-9, 1e-11)
     ser = np.array([B.ref_psi(np.asarray(keep[f], float), Hs[f], ppp, nls[f], l, wts[f] if wts is not None else None) for f in range(F)])
     where = f"form {form}, frames {case['topo']}, cell {case['cells'][0]}, ppp {ppp}, l={l}"
     got = b.ParticlePhi
@@ -1174,7 +1175,7 @@ def subs(tier, seed):
             bounds={"name_forms": FILE_NAMES}),
         Sub("C10.types", gen_types, run_types,
             rule="STORAGE / ARGUMENT FORMS: 5 three-frame trajectories (topology classes; weights signed -> one exact zero per row -> positive) x forms {reference form (signed integer tokens), ppp as list / tuple / bool "
-                 "array / int32 array, positions float32 (2e-6) / Fortran-ordered / strided view, l as np.int64, Nmax as np.int32, particles at the origin / exactly on box faces, UNWRAPPED coordinates shifted by "
+                 "array / int32 array, positions float32 (1e-4) / Fortran-ordered / strided view, l as np.int64, Nmax as np.int32, particles at the origin / exactly on box faces, UNWRAPPED coordinates shifted by "
                  "whole cell vectors n.H with n in {0,+2,-3,+4,-2} per particle and periodic axis, the whole system DILATED by 2^-33 / 2^27, cell matrix AND positions Fortran-ordered (both must come back unchanged), "
                  "all weights x 2^-33 / 1e-9 / 2^27 (psi_l is scale-free in the weights), explicit zero options (time_corr dt = 0.0 / 0), timesteps offset by 2e9} x l in "
                  + ("{1,6,11}" if q else "1..12") + " x {orth, tri} x masks {11; 01, 10 for the ppp / unwrapped forms} x {unweighted, weighted}; psi_l, modulus, time_corr, time_average, spatial_corr vs the loop "
